@@ -59,6 +59,8 @@ fn gen(rng: &mut Rng, idx: u64, tier: Tier) -> Case {
     let n_ac = match rng.below(20) { 0 | 1 => rng.range(8, 16), 2 => rng.range(24, 60), _ => rng.range(2, 5) } as usize;
     let addrs = gen::addresses(rng, n_ac);
     let mut acs: Vec<gen::Ac> = addrs.iter().map(|&a| gen::aircraft(rng, a)).collect();
+    // two aircraft may well use the same callsign and squawk
+    if acs.len() > 1 && rng.chance(0.3) { acs[1].callsign = acs[0].callsign.clone(); acs[1].sq = acs[0].sq; }
     let mut args = vec![format!("--delete-after={}", d_opt)];
     if rng.chance(0.45) { args.push("--use-update-method".into()); }
     if rng.chance(0.3) { args.push("--relaxed".into()); }
